@@ -279,7 +279,18 @@ func (g *gctx) sourceAccount(asset string, isAll bool, forbidden map[string]bool
 	switch rapid.IntRange(0, 5).Draw(g.t, "overdraft") {
 	case 0:
 		k := big.NewInt(int64(rapid.SampledFrom([]int{0, 1, 10, 50, 100}).Draw(g.t, "grant")))
-		s.Overdraft = &Overdraft{Amount: g.monExpr(asset, k)}
+		odAsset := asset
+		if rapid.IntRange(0, 9).Draw(g.t, "overdraftOtherAsset") == 0 {
+			// the bound is written in another asset than the send's: the statement contradicts itself and must be refused
+			for _, a := range assetPool {
+				if a != asset {
+					odAsset = a
+					break
+				}
+			}
+			g.label("overdraft:other-asset")
+		}
+		s.Overdraft = &Overdraft{Amount: g.monExpr(odAsset, k)}
 		od = k
 		g.label("overdraft:specific")
 	case 1:
